@@ -101,6 +101,36 @@ PATTERN_TEXTS = [
     "2x + 0 = 4", "x * 2 = 4", "-2x = 4", "0.5x = 4", "x + y + z = 0", "2 + x = y - 1", "2x = 4y", "x = y",
 ]
 
+def template_texts():
+    """Systematic near-misses of the chained arrangements: every operator position of every
+    arrangement template varied over all five binary operators (and unary minus contexts)."""
+    import itertools
+    ops = ["+", "-", "*", "/", "^"]
+    out = []
+    for o1, o2, o3 in itertools.product(ops, repeat=3):
+        out.append(f"2 {o1} ((3 {o2} x) {o3} y)")          # constants: chained right deep
+        out.append(f"(2 {o1} x) {o2} (3 {o3} y)")          # constants: chained right left / variable multiply
+        out.append(f"(z {o1} (4 {o2} x)) {o3} (3 * y)")    # constants: chained left left right
+        out.append(f"2x {o1} ((3x {o2} y) {o3} z)")        # factor out: chained right left
+        out.append(f"((y {o1} z) {o2} 2x) {o3} 3x")        # factor out: chained left
+        out.append(f"(y {o1} 2x) {o2} (3x {o3} z)")        # factor out: chained both
+        out.append(f"x^2 {o1} (x^3 {o2} y) {o3} z")        # variable multiply chained
+        out.append(f"2 {o1} (x {o2} 1 {o3} 3) = 12")       # balanced move: addend below another operator
+        out.append(f"(x {o1} 1 {o2} 3) {o3} 2 = 12")
+    for o1, o2 in itertools.product(ops, repeat=2):
+        out.append(f"2 {o1} (3 {o2} x)")
+        out.append(f"(2 {o1} x) {o2} 3")
+        out.append(f"4 {o1} (3x {o2} y)")
+        out.append(f"2x^0 {o1} x^3 {o2} y")
+        out.append(f"x^0 {o1} (x^2 {o2} y)")
+        out.append(f"-(x {o1} 1 {o2} 2) = 3")
+        out.append(f"y - (x {o1} 1 {o2} 2) = 0")
+        out.append(f"2 {o1} x {o2} 3 = 4 {o1} y")
+    for o in ops:
+        out += [f"x^0 {o} x^3", f"4x^0 {o} x", f"(2y * x^0) {o} 3x^2", f"x^-1 {o} x", f"0x {o} 2x", f"0 {o} x = 0"]
+    return out
+
+
 VARS = list("xyzabc")
 
 
